@@ -23,11 +23,11 @@ Open Scope list_scope.
 Lemma names_le_compiled : forall p c, compile_prog p = Fun2Core.Ok c -> names_le c = true.
 Proof.
   intros p c H. unfold compile_prog, compile_prog_gen in H.
-  destruct (compile_defs false (fcpdefs p) _ _ [] []) as [defs|?] eqn:E; simpl in H; [|discriminate].
+  destruct (compile_defs false _ (fcpdefs p) _ _ [] []) as [defs|?] eqn:E; simpl in H; [|discriminate].
   injection H as <-. unfold names_le. cbn [cpdefs cpmax]. apply forallb_forall. intros x Hx.
-  destruct (compile_defs_cover _ _ _ _ _ _ _ E x Hx) as [[]|[[]|[d [ul1 [g [ul2 [Hd [Hg [Hin _]]]]]]]]].
+  destruct (compile_defs_cover _ _ _ _ _ _ _ _ E x Hx) as [[]|[[]|[d [ul1 [g [ul2 [Hg Hin]]]]]]].
   assert (Hn : exists gl, map cdname g = map new_id (fdname d :: gl)).
-  { destruct (String.eqb (fdname d) "main").
+  { destruct Hg as [Hg|Hg].
     - destruct (compile_main_names _ _ _ _ _ _ Hg) as [gl [_ [_ Hm]]]. eauto.
     - destruct (compile_def_names _ _ _ _ _ _ Hg) as [gl [_ [_ Hm]]]. eauto. }
   destruct Hn as [gl Hn].
@@ -97,7 +97,7 @@ From SCC Require Import Proof.FocusNamesTop Proof.UqTyTop Proof.UqAeq Proof.Focu
 Lemma xtor_tys_of_source : forall p c, compile_prog p = Fun2Core.Ok c -> xtor_tys_guard p = true -> xtor_tys_ok c = true.
 Proof.
   intros p c H Hg. unfold compile_prog, compile_prog_gen in H.
-  destruct (compile_defs false (fcpdefs p) _ _ [] []) as [defs|?]; simpl in H; [|discriminate].
+  destruct (compile_defs false _ (fcpdefs p) _ _ [] []) as [defs|?]; simpl in H; [|discriminate].
   injection H as <-. exact Hg.
 Qed.
 
